@@ -45,6 +45,14 @@ if kind in ("row", "any"):
         print("max |K_part - K_global| on owned rows =", K["max_row_diff"], "(scale %%g) at" %% K["scale"], K["worst_at"], " expected 0")
         print("sum over parts of owned-row energies =", K["E_sum_parts"], " global energy =", K["E_global"])
         bad = bad or K["max_row_diff"] > 1e-10 * K["scale"] or abs(K["E_sum_parts"] - K["E_global"]) > 1e-10 * abs(K["E_global"])
+if kind in ("roundtrip", "any"):
+    print("partition data after Save/Load_Mesh, deepcopy, pickle:", res.get("roundtrip_problems"), " expected []")
+    bad = bad or bool(res.get("roundtrip_problems"))
+if kind in ("support", "any"):
+    S = (res.get("K") or {}).get("support") or {}
+    if S:
+        print("support reaction: sum over parts", S["sum_parts"], "global", S["global"], "; Calc_Reaction(empty) returned sizes", S["returned_sizes_for_empty_selection"], "on", S["parts_with_empty_selection"], "parts (expected all 0)")
+        bad = bad or any(n != 0 for n in S["returned_sizes_for_empty_selection"]) or not (abs(S["sum_parts"] - S["global"]) <= 1e-10 * S["scale"])
 if kind in ("energy", "any"):
     I = (res.get("K") or {}).get("impl") or {}
     if I:
@@ -558,7 +566,7 @@ def run(ctx):
 
     # ---------------- judge ----------------
     matchA = matchB = total = 0
-    n_impl_energy = n_impl_solved = 0
+    n_impl_energy = n_impl_solved = n_empty_sel = 0
     dist = {}
     margin = []
     viol_keys = set()
@@ -596,6 +604,13 @@ def run(ctx):
                 viol_keys.add(key)
                 ctx.violation(key, "%s, Nproc=%d: parts do not keep the global rows/node ids/coordinates or the partition arrays are not sorted/consistent (%s)" % (tag, c["Nproc"], (r["problems"] + r["not_canonical"])[:2]),
                               {"replay_py": REPLAY % dict(case=c, kind="numbering"), "case": c})
+        if r.get("roundtrip_problems"):
+            key = "partition-data:save-load-copy"
+            if key not in viol_keys:
+                viol_keys.add(key)
+                ctx.violation(key, "%s, Nproc=%d: the partition data of a part does not survive Save/Load_Mesh / deepcopy / pickle (groups carry %d tags): %s"
+                              % (tag, c["Nproc"], r.get("roundtrip_tags_seen", 0), r["roundtrip_problems"][:3]),
+                              {"replay_py": REPLAY % dict(case=c, kind="roundtrip"), "case": c, "problems": r["roundtrip_problems"]})
         K = r.get("K") or {}
         kbad = False
         if "error" in K:
@@ -612,6 +627,18 @@ def run(ctx):
                     (K["worst_at"] or {}).get("rank"), (K["worst_at"] or {}).get("node"), K["max_row_diff"], K["scale"], K["E_sum_parts"], K["E_global"])
             elif worst > TIGHT:
                 margin.append((c["id"], worst))
+            S = K.get("support") or {}
+            if S and not (r["row_incomplete_count"] or kbad):
+                bad_empty = any(n != 0 for n in S["returned_sizes_for_empty_selection"])
+                bad_sum = not (abs(S["sum_parts"] - S["global"]) <= TOL * S["scale"])
+                n_empty_sel += S["parts_with_empty_selection"]
+                if bad_empty or bad_sum:
+                    key = "calc-energy-reaction:empty-selection" if bad_empty else "calc-energy-reaction:support-reaction"
+                    if key not in viol_keys:
+                        viol_keys.add(key)
+                        ctx.violation(key, "%s, Nproc=%d: reaction on the clamped side, every part passing the support dofs it owns (%d parts own none and pass an empty array): Calc_Reaction(empty) returned %s values (expected 0); sum over the parts %.12g, global %.12g"
+                                      % (tag, c["Nproc"], S["parts_with_empty_selection"], S["returned_sizes_for_empty_selection"], S["sum_parts"], S["global"]),
+                                      {"replay_py": REPLAY % dict(case=c, kind="support"), "case": c, "support": S})
             I = K.get("impl") or {}
             if I:
                 # Calc_Energy(A, x, dofs=owned) and Calc_Reaction(owned dofs) of the IMPLEMENTATION, part by
@@ -667,7 +694,7 @@ def run(ctx):
     nbok = sum(1 for c in cases if by_id.get(c["id"], {}).get("boundary_ok"))
     ctx.cov["hypothesis_boundary_ok_holds_on_cases"] = "%d/%d" % (nbok, total)
     variant = "as-written" if matchA == total else ("fixed" if matchB == total else "neither")
-    ctx.cov.update({"calc_energy_reaction_cases": n_impl_energy, "calc_energy_cases_with_solved_field": n_impl_solved,
+    ctx.cov.update({"parts_with_empty_support_selection": n_empty_sel, "calc_energy_reaction_cases": n_impl_energy, "calc_energy_cases_with_solved_field": n_impl_solved,
                     "partition_cases": total, "match_model_as_written": matchA, "match_model_fixed": matchB,
                     "implementation_variant": variant, "case_distribution": dist,
                     "Nproc_values": sorted(set(c["Nproc"] for c in cases)),
